@@ -45,6 +45,8 @@ impl Cfg {
         o.oti = Some(oti);
         o.count = self.count;
         o.inband_cenc = self.inband_fti;
+        // half of the sessions without Content-MD5 (the receiver then has no second line of defence)
+        o.md5 = (self.shape + self.interleave + self.k as u8) % 2 == 0;
         let mut s = SessSpec::basic(OtiSpec::new(Scheme::NoCode, 1424, 64, 0, true));
         s.interleave = self.interleave;
         RecSpec { sess: s, objs: vec![o], polls_ms: vec![0] }
